@@ -28,7 +28,9 @@ META = dict(
           "object set,get,has/array push,insert,get,pop,clear,size/casts/accessors over any number of C variables, every "
           "observation of the model equals what a path-indexed last-write-wins document store requires, as long as the "
           "history stays inside that store's preconditions (refinement by invariant, unbounded); (3) every handle the model "
-          "calls usable designates a live heap object and an existing node (invariant over all histories). The model is tied "
+          "calls usable designates a live heap object and an existing node (invariant over all histories), and the handle "
+          "returned by occaCreateJson stays usable across every history that neither frees its object nor assigns the "
+          "variable. The model is tied "
           "to the C++ by running the extracted model and the real library on the same cases under ASan/UBSan/LSan.",
     note="Trusted: Coq kernel; the hand model (tie is differential: seeded histories + an enumerated batch of all extreme "
          "values per kind); extraction; drivers; float conversions between different kinds are only tied, not proved "
@@ -582,7 +584,7 @@ def run(run, tier, seed, replay_case=None):
     rng = random.Random(seed * 7919 + 29)
     corpus = C.load_corpus(PROP)
     quick = tier == "quick"
-    n_scalar, n_json, n_kr = (600, 1800, 25) if quick else (20000, 60000, 400)
+    n_scalar, n_json, n_kr = (600, 1800, 25) if quick else (12000, 50000, 300)
     conv = [c for c in corpus if "KR" not in c] + extreme_cases() + [gen_scalar_case(rng) for _ in range(n_scalar)]
     hist = [gen_json_case(rng, tier) for _ in range(n_json)]
     kr = [c for c in corpus if "KR" in c] + kr_extreme_cases() + [gen_kr_case(rng) for _ in range(n_kr)]
